@@ -90,9 +90,12 @@ def boundaries(deflate):
 def valid_message(s, i, deflate):
     text = "msg%d-é" % i
     payload = text.encode()
-    if deflate is True:
-        return s.frame(True, 1, s.deflate.compress(payload), rsv=0x40), text
-    return s.frame(True, 1, payload), text
+    wire, rsv = (s.deflate.compress(payload), 0x40) if deflate is True else (payload, 0)
+    if i % 2 == 1:
+        # every second valid message is fragmented: the per-connection fragment state has been used (and reset) before
+        # the violating frame arrives
+        return s.frame(False, 1, wire[:3], rsv=rsv) + s.frame(False, 0, wire[3:5]) + s.frame(True, 0, wire[5:]), text
+    return s.frame(True, 1, wire, rsv=rsv), text
 
 
 def open_session(w, role, deflate, limit=LIMIT):
@@ -100,6 +103,10 @@ def open_session(w, role, deflate, limit=LIMIT):
         return wsh.ServerSession(w, offer="permessage-deflate" if deflate is True else None,
                                  compression_options={} if deflate else None,
                                  settings={"websocket_max_message_size": limit})
+    if deflate == "unoffered":
+        # the client did not enable compression and offered nothing; the peer answers with permessage-deflate anyway
+        return wsh.ClientSession(w, compression_options=None, response_ext="permessage-deflate",
+                                 connect_kwargs={"max_message_size": limit})
     return wsh.ClientSession(w, compression_options={} if deflate else None,
                              response_ext="permessage-deflate" if deflate is True else None,
                              connect_kwargs={"max_message_size": limit})
@@ -213,12 +220,16 @@ class C15(Check):
     assumptions = ["unmasked client frames / masked server frames and non-minimal length encodings are not in the statement's list (not injected)"]
 
     def partitions(self, tier):
+        # d = "unoffered": the client offered no extension, the handshake response names permessage-deflate
         # d = "local": compression enabled on the Tornado side but the extension was not negotiated with this peer
-        return [(role, d, i, 8) for role in ("server", "client") for d in (False, True, "local") for i in range(8)]
+        return ([(role, d, i, 8) for role in ("server", "client") for d in (False, True, "local") for i in range(8)]
+                + [("client", "unoffered", 0, 1)])
 
     def run_partition(self, part, tier, st):
         role, deflate, sl, nsl = part
         names = sorted(violations(deflate))
+        if deflate == "unoffered":
+            names = ["rsv1-without-extension", "rsv2", "orphan-continuation"]
         k = 0
         for vname in names:
             for nbefore in (0, 1, 2):
@@ -249,6 +260,8 @@ class C15(Check):
                          "%s at %s:%s" % (e, tb.filename.rsplit("/", 1)[-1], tb.name),
                          {"role": role, "deflate": deflate, "v": vname, "before": nbefore, "after": nafter, "sep": sep, "boundary": boundary})
             return
+        if deflate == "unoffered" and o.get("handshake_failed"):
+            o = {"handshake_failed": False, "refused": True}      # refusing the handshake is the right answer
         st.ev()
         st.transitions += nbefore + nafter + 1
         key = h((role, deflate, vname, nbefore, nafter, sep, cut))
@@ -259,7 +272,7 @@ class C15(Check):
         if len(st.samples) < 2 and nbefore == 1:
             st.sample({"role": role, "deflate": deflate, "violation": vname, "valid_before": nbefore, "valid_after": nafter,
                        "frame_by_frame": sep, "received": [repr(x)[:20] for x in o.get("received", [])], "closed": o.get("closed")})
-        for sig, msg in judge(o, boundary):
+        for sig, msg in ([] if o.get("refused") else judge(o, boundary)):
             st.violation("%s:%s:%s" % (role, vname, sig),
                          "role=%s deflate=%r violation=%s after %d valid, before %d valid, frame_by_frame=%r: %s"
                          % (role, deflate, vname, nbefore, nafter, sep, msg),
